@@ -21,35 +21,35 @@ From Verif.proofs Require Import AppStorageInv AppStorageTheorems.
 Open Scope N_scope.
 
 (* TotalBoxes = number of boxes, TotalBoxBytes = sum of len(name) + len(value) *)
-Theorem C23_box_accounting : forall P gs ls ops,
+Theorem C23_box_accounting : forall P cr gs ls ops,
   schema_wf gs -> schema_wf ls -> Forall op_wf ops -> volume ops < 2 ^ 64 ->
-  let w := run P (winit gs ls) ops in
+  let w := run P (winit cr gs ls) ops in
   w_tb w = box_count (w_box w) /\ w_tbb w = box_bytes (w_box w).
 Proof. exact box_accounting. Qed.
 Print Assumptions C23_box_accounting.
 
 (* ... with AddSaturate / SubSaturate never saturating: both counters stay below the volume
    requested so far, which is below 2^64 *)
-Theorem C23_box_counters_never_saturate : forall P gs ls ops,
+Theorem C23_box_counters_never_saturate : forall P cr gs ls ops,
   schema_wf gs -> schema_wf ls -> Forall op_wf ops -> volume ops < 2 ^ 64 ->
-  let w := run P (winit gs ls) ops in
+  let w := run P (winit cr gs ls) ops in
   w_tb w <= volume ops /\ w_tbb w <= volume ops.
 Proof. exact box_counters_bounded. Qed.
 Print Assumptions C23_box_counters_never_saturate.
 
 (* the global state never holds more integers / byte strings than GlobalStateSchema allows *)
-Theorem C23_global_schema_bound : forall P gs ls ops,
+Theorem C23_global_schema_bound : forall P cr gs ls ops,
   schema_wf gs -> schema_wf ls -> Forall op_wf ops -> volume ops < 2 ^ 64 ->
-  let w := run P (winit gs ls) ops in
+  let w := run P (winit cr gs ls) ops in
   forall s, w_global w = Some s ->
     fst (count_kv (st_kv s)) <= fst (w_gschema w) /\ snd (count_kv (st_kv s)) <= snd (w_gschema w).
 Proof. exact global_schema_bound. Qed.
 Print Assumptions C23_global_schema_bound.
 
 (* every opted-in account's local state stays within the schema recorded at opt-in *)
-Theorem C23_local_schema_bound : forall P gs ls ops,
+Theorem C23_local_schema_bound : forall P cr gs ls ops,
   schema_wf gs -> schema_wf ls -> Forall op_wf ops -> volume ops < 2 ^ 64 ->
-  let w := run P (winit gs ls) ops in
+  let w := run P (winit cr gs ls) ops in
   forall a s sch, aget N.eqb a (w_local w) = Some (s, sch) ->
     fst (count_kv (st_kv s)) <= fst sch /\ snd (count_kv (st_kv s)) <= snd sch.
 Proof. exact local_schema_bound. Qed.
@@ -58,9 +58,9 @@ Print Assumptions C23_local_schema_bound.
 (* the bookkeeping behind it: the incremental counters of updateCounts (with their wrapping
    ++ / --) always equal the real counts, and the limits used by checkCounts are the declared
    schemas *)
-Theorem C23_counts_exact : forall P gs ls ops,
+Theorem C23_counts_exact : forall P cr gs ls ops,
   schema_wf gs -> schema_wf ls -> Forall op_wf ops -> volume ops < 2 ^ 64 ->
-  let w := run P (winit gs ls) ops in
+  let w := run P (winit cr gs ls) ops in
   (forall s, w_global w = Some s -> st_counts s = count_kv (st_kv s) /\ st_max s = w_gschema w) /\
   (forall a s sch, aget N.eqb a (w_local w) = Some (s, sch) ->
      st_counts s = count_kv (st_kv s) /\ sch = w_lschema w /\ (w_global w <> None -> st_max s = sch)).
@@ -76,18 +76,30 @@ Print Assumptions C23_failing_call_changes_nothing.
 (* ... because the program runs in a child that is discarded: setKey itself writes before it
    checks (two integers in a store declared for one), and [step] returns the old state *)
 Theorem C23_put_writes_before_check :
-  let w := winit (1, 0) (0, 0) in
+  let w := winit 1 (1, 0) (0, 0) in
   exists w' s, run_script P0 false 1 [] [SGlobalPut [1] (TVu 7); SGlobalPut [2] (TVu 8)] w = (w', Err R_LOGIC) /\
     w_global w' = Some s /\ count_kv (st_kv s) = (2, 0) /\ w_gschema w' = (1, 0) /\
     fst (step P0 w (OCall 1 [] NoOp [SGlobalPut [1] (TVu 7); SGlobalPut [2] (TVu 8)])) = w.
 Proof. exact put_writes_before_check. Qed.
 Print Assumptions C23_put_writes_before_check.
 
+(* Observation (not a clause of the property; found by the correspondence run and transcribed
+   faithfully): once the creator has closed out of its own application, an UpdateApplication
+   sent by another account in the SAME block fails with a recovered panic of
+   AccountDeltas.ModifiedAccounts, and succeeds one block later or when sent by the creator. *)
+Theorem C23_update_after_creator_closeout :
+  let w := run P0 (winit 1 (1, 1) (1, 1)) [OCall 1 [] OptIn []; OEndBlock; OCall 1 [] CloseOut []] in
+  snd (step P0 w (OCall 2 [] (UpdateApp (0, 0)) [])) = Err R_APPLY /\
+  snd (step P0 (end_block w) (OCall 2 [] (UpdateApp (0, 0)) [])) = Ok [] /\
+  snd (step P0 w (OCall 1 [] (UpdateApp (0, 0)) [])) = Ok [].
+Proof. exact update_after_creator_closeout. Qed.
+Print Assumptions C23_update_after_creator_closeout.
+
 (* the executable predicate that the check evaluates on the ledger's answers holds of every
    reachable model state, and it says what the property says *)
-Theorem C23_spec_state_holds : forall P gs ls ops,
+Theorem C23_spec_state_holds : forall P cr gs ls ops,
   schema_wf gs -> schema_wf ls -> Forall op_wf ops -> volume ops < 2 ^ 64 ->
-  spec_state (run P (winit gs ls) ops) = true.
+  spec_state (run P (winit cr gs ls) ops) = true.
 Proof. exact spec_state_holds. Qed.
 Print Assumptions C23_spec_state_holds.
 
@@ -116,9 +128,9 @@ Definition nv_ops : list op :=
     OCall 1 [] CloseOut [];
     OCall 2 [] DeleteApp [SBoxPut [7] [1; 2; 3]] ].
 Example C23_history_nonvacuous :
-  let w := run P0 (winit (2, 1) (1, 1)) nv_ops in
+  let w := run P0 (winit 1 (2, 1) (1, 1)) nv_ops in
   Forall op_wf nv_ops /\ volume nv_ops < 2 ^ 64 /\
-  map (fun n => res_code (snd (step P0 (run P0 (winit (2, 1) (1, 1)) (firstn n nv_ops)) (nth n nv_ops OEndBlock))))
+  map (fun n => res_code (snd (step P0 (run P0 (winit 1 (2, 1) (1, 1)) (firstn n nv_ops)) (nth n nv_ops OEndBlock))))
       [0; 1; 2; 3; 5; 6; 7; 8]%nat = [0; 0; 0; 2; 3; 0; 0; 0] /\
   w_global w = None /\ w_tb w = 2 /\ w_tbb w = 2 + 10 + 1 + 3 /\ w_local w = [].
 Proof.
